@@ -390,7 +390,7 @@ def legal(meta, ops, upto=None, two_monitors=False):
                 elif key:
                     live_slots.discard(key)
             elif k in ('obj', 'seq', 'tr'):
-                if op[1] in m.objs or op[1] in m.seqs:
+                if op[1] in m.objs or op[1] in m.seqs or op[1] in m.husks:
                     return None
             elif k in ('mvobj', 'cpobj', 'cpobjc'):
                 if op[1] in m.objs or op[2] not in m.objs:
@@ -409,8 +409,17 @@ def legal(meta, ops, upto=None, two_monitors=False):
                 for e in m.exps.values():
                     if not e.is_mon and any(e.p.get('se%d' % j) in (2, 3, 5) for j in range(3)) and e.p.get('nobj') == op[1]:
                         return None
-            elif k == 'rmseq' or k == 'qseq':
+            elif k == 'rmseq':
+                if op[1] not in m.seqs and op[1] not in m.husks:
+                    return None
+            elif k == 'qseq':
                 if op[1] not in m.seqs:
+                    return None
+            elif k == 'mvseq':
+                if op[1] in m.objs or op[1] in m.seqs or op[1] in m.husks or op[1] in m.exps or op[2] not in m.seqs:
+                    return None
+            elif k == 'asseq':
+                if (op[1] not in m.seqs and op[1] not in m.husks) or op[2] not in m.seqs or op[1] == op[2]:
                     return None
             elif k in ('call', 'callx'):
                 if op[1] not in m.objs:
